@@ -53,6 +53,20 @@ def hx(s):
     return binascii.hexlify(s.encode("utf-8", "surrogatepass")).decode("ascii")
 
 
+class _Request(object):
+    """what onConnect looks at of autobahn's ConnectionRequest"""
+    def __init__(self, peer):
+        self.peer = peer
+        self.headers = {}
+        self.host = "localhost"
+        self.path = "/v1"
+        self.params = {}
+        self.version = 18
+        self.origin = None
+        self.protocols = []
+        self.extensions = []
+
+
 class DBProxy(object):
     """forwards to the real sqlite3 connection; counts commits; injects faults"""
 
@@ -62,6 +76,7 @@ class DBProxy(object):
         object.__setattr__(self, "_which", which)
 
     def commit(self):
+        self._world.before_commit()
         self._db.commit()
         self._world.on_commit(self._which)
 
@@ -71,7 +86,9 @@ class DBProxy(object):
             w.fault_armed = False
             w.fault_fired = True
             raise sqlite3.OperationalError("database is locked")
-        return self._db.execute(*a, **kw)
+        r = self._db.execute(*a, **kw)
+        w.on_statement()
+        return r
 
     # `with db:` (sqlite3's connection context manager: commit on success, rollback on an exception) --
     # special methods are looked up on the type, so they must be forwarded explicitly
@@ -80,6 +97,8 @@ class DBProxy(object):
         return self
 
     def __exit__(self, et, ev, tb):
+        if et is None:
+            self._world.before_commit()
         r = self._db.__exit__(et, ev, tb)
         if et is None:
             self._world.on_commit(self._which)
@@ -173,6 +192,8 @@ class World(object):
         self.log = []
         self.commit_count = 0
         self.crash_at = None
+        self.crash_stmt = None
+        self.stmt_left = None
         self.crashed = False
         self.hard_kill = False       # validity.py: die for real (os._exit) at the crash point instead of simulating it
         self.want_pre_boot = False   # validity.py: after a simulated crash, dump the files before the reboot
@@ -264,6 +285,9 @@ class World(object):
         self.timer.clock = self.reactor
         self.expire = self.timer.call[0]
         self.factory = W.WebSocketServerFactory(None, self.server)
+        # the factory's reactor ("for tests to control") is the one the service runs on: work a handler
+        # queues for the next reactor turn (callLater(0), deferLater) then runs in _turn() below
+        self.factory.reactor = self.reactor
         self.reader_c = sqlite3.connect(self.chan_path)
         self.reader_u = sqlite3.connect(self.usage_path) if self.usage_path else None
         self.boot_t = self.t
@@ -294,16 +318,48 @@ class World(object):
                 r.close()
         self.svc = None
         self.conns = {}
+        if not clean:
+            # a dead process holds no locks.  A SELECT cursor the dying handler was iterating over would keep its
+            # shared lock for as long as a frame or traceback refers to it (sqlite3's close() is deferred while
+            # statements are outstanding): drop every reference to the old process and collect
+            self.timer = self.expire = self.server = self.factory = None
+            self.chan_db = self.usage_db = None
+            import gc
+            gc.collect()
 
     # ------------------------------------------------------------------ observation
     def on_commit(self, which):
         self.commit_count += 1
         self.log.append([which])
         if self.crash_at is not None and self.commit_count == self.crash_at:
+            if self.crash_stmt:
+                self.stmt_left = self.crash_stmt     # die some statements after this commit (on_statement)
+                return
             if self.hard_kill:
                 os._exit(0)      # no rollback, no close, no flush: what kill -9 leaves is what is on disk now
             self.crashed = True
             raise Crash()
+
+    def _die(self):
+        if self.hard_kill:
+            os._exit(0)
+        self.crashed = True
+        self.stmt_left = None
+        raise Crash()
+
+    def on_statement(self):
+        """a crash event with after_stmt=m dies right after the m-th SQL statement that follows its n-th commit
+        (or right before the next commit, if that comes first).  With SQLite's atomic commit the files then hold
+        exactly what commit n left -- the state the model's `ECrash n` restarts from; the statements in between are
+        only durable if the code no longer runs them inside one transaction."""
+        if self.stmt_left is not None:
+            self.stmt_left -= 1
+            if self.stmt_left <= 0:
+                self._die()
+
+    def before_commit(self):
+        if self.stmt_left is not None:
+            self._die()
 
     @staticmethod
     def dump_chan(db):
@@ -528,6 +584,7 @@ class World(object):
             p = self.factory.buildProtocol(None)
             p.sendMessage = lambda payload, isBinary=False, c=c, **kw: self.record_frame(c, payload, isBinary)
             self.conns[c] = p
+            p.onConnect(_Request("tcp4:127.0.0.1:%d" % (40000 + c)))     # (autobahn calls it with the upgrade request)
             p.onOpen()
             return None
         if k == "disconnect":
@@ -618,19 +675,35 @@ class World(object):
             if "oracle" in ev:
                 base["oracle"] = ev["oracle"]
             exc = None
-            if n == 0:
+            m = ev.get("after_stmt")
+            if n == 0 and not m:
                 if base["k"] == "advance":
                     self.t += base["dt"]
                 pre = []
             else:
                 self.crash_at = n
+                self.crash_stmt = m or None
+                self.stmt_left = m if (m and n == 0) else None
                 try:
                     exc = self.do_base(base)
                 except Crash:
                     exc = None
                 finally:
                     self.crash_at = None
+                    self.crash_stmt = None
+                    self.stmt_left = None
                 pre = self.log
+                if m:
+                    # what the model's `ECrash n` records: the event up to its n-th commit (frames sent between
+                    # that commit and the death some statements later are not part of the comparison)
+                    seen, cut = 0, 0 if n == 0 else None
+                    for j, e in enumerate(pre):
+                        if cut is None and e[0] in ("C", "U"):
+                            seen += 1
+                            if seen == n:
+                                cut = j + 1
+                    if cut is not None:
+                        pre = pre[:cut]
             anomalies = self.anomalies
             oracle = self.oracle
             self._teardown(clean=False)
@@ -643,4 +716,17 @@ class World(object):
             o["oracle"] = oracle
             return o
         exc = self.do_base(ev)
+        if not ev.get("same_turn") and k in ("connect", "cmd", "disconnect", "sweep"):
+            self._turn()
         return self.observe(exc=exc)
+
+    def _turn(self):
+        """one reactor turn passes: whatever was queued with delay 0 runs now (nothing, in the code as it is;
+        an event tagged same_turn is followed by the next one within the same turn: frames that arrive in one
+        socket read, or several sockets readable in one poll)"""
+        try:
+            self.reactor.advance(0)
+        except Crash:
+            raise
+        except Exception as e:
+            self.anomalies.append("a call queued for the next reactor turn raised %s: %s" % (type(e).__name__, e))
